@@ -33,6 +33,8 @@ pub enum QOp {
     ToVec,
     /// rebuild the queue from its own listing / text / JSON
     Rebuild(Build),
+    /// push and remove `n` orders under fresh reserved ids (leaves n dead tickets behind)
+    Stale(u16),
 }
 
 #[derive(Clone, Debug, PartialEq, Eq, Hash, Serialize, Deserialize)]
@@ -55,6 +57,7 @@ fn qcase(max_len: usize) -> BoxedStrategy<QCase> {
         1 => Just(QOp::IsEmpty),
         2 => Just(QOp::ToVec),
         2 => proptest::sample::select(vec![Build::FromVec, Build::From, Build::Text, Build::Json]).prop_map(QOp::Rebuild),
+        1 => prop_oneof![4 => 1u16..=8, 2 => 30u16..=40, 2 => 62u16..=70, 2 => 126u16..=134, 1 => 250u16..=260, 1 => 1020u16..=1030].prop_map(QOp::Stale),
     ];
     (gen::id_pool(3, 8), proptest::collection::vec(op, 0..=max_len))
         .prop_map(|(pool, ops)| QCase { pool, ops })
@@ -78,6 +81,7 @@ pub fn eval(c: &QCase, st: &mut Stats, excuse_kf: bool) -> Result<Outcome, Strin
     let mut had_remove = false;
     let mut repush = false;
     let mut ever: HashSet<OrderId> = HashSet::new();
+    let mut bulk: u64 = 0;
     let sorted = |v: &[Order]| {
         let mut v = v.to_vec();
         v.sort_by_key(|o| o.id().to_string());
@@ -176,6 +180,28 @@ pub fn eval(c: &QCase, st: &mut Stats, excuse_kf: bool) -> Result<Outcome, Strin
                         model.iter().map(brief).collect::<Vec<_>>().join(", ")
                     ));
                 }
+            }
+            QOp::Stale(n) => {
+                st.count("queue_op/stale_bulk");
+                for _ in 0..*n {
+                    bulk += 1;
+                    let id = OrderId::from_u64(0x5741_1E00_0000_0000 + bulk);
+                    let o = OrderType::Standard {
+                        id,
+                        price: 1,
+                        quantity: 1,
+                        side: pricelevel::Side::Buy,
+                        timestamp: 3,
+                        time_in_force: pricelevel::TimeInForce::Gtc,
+                        extra_fields: (),
+                    };
+                    q.push(Arc::new(o));
+                    let got = q.remove(id).map(|a| *a);
+                    if got != Some(o) {
+                        return fail(format!("remove of the order just pushed returned {:?}", got.as_ref().map(brief)));
+                    }
+                }
+                had_remove = true;
             }
             QOp::Rebuild(b) => {
                 st.count(&format!("queue_op/rebuild_{:?}", b));
